@@ -23,6 +23,7 @@ type Ledger struct {
 	chans    map[channel.ID]*lchan
 	subs     map[channel.ID][]*lsub
 	regSub   map[channel.ID]*channel.State // sub-channel states registered together with a parent
+	latest   map[channel.ID]channel.AdjudicatorEvent // newest event per channel id (parents and sub-channels): replayed to new subscribers, as real backends do
 	Log      []string
 	Viol     []string
 	total    *big.Int
@@ -59,7 +60,7 @@ type lsub struct {
 }
 
 func NewLedger() *Ledger {
-	return &Ledger{acct: map[string]*big.Int{}, chans: map[channel.ID]*lchan{}, subs: map[channel.ID][]*lsub{}, regSub: map[channel.ID]*channel.State{},
+	return &Ledger{acct: map[string]*big.Int{}, chans: map[channel.ID]*lchan{}, subs: map[channel.ID][]*lsub{}, regSub: map[channel.ID]*channel.State{}, latest: map[channel.ID]channel.AdjudicatorEvent{},
 		total: new(big.Int), Payouts: map[string]*big.Int{}, Funded: map[string]*big.Int{}, duration: 60 * time.Second}
 }
 
@@ -151,6 +152,7 @@ func (t *vtimeout) Wait(ctx context.Context) error {
 func (t *vtimeout) String() string { return fmt.Sprintf("<virtual timeout %v>", t.at.Unix()) }
 
 func (l *Ledger) emit(id channel.ID, e channel.AdjudicatorEvent) {
+	l.latest[id] = e
 	for _, s := range l.subs[id] {
 		if !s.isOpen {
 			continue
@@ -292,7 +294,11 @@ func (l *Ledger) outcome(st *channel.State, given channel.StateMap) ([]*big.Int,
 			}
 			return nil, fmt.Errorf("sub-channel state v%d was never registered", g.Version)
 		}
-		if g, ok := given[sa.ID]; ok && g.Version != sub.Version {
+		g, ok := given[sa.ID]
+		if !ok {
+			return nil, fmt.Errorf("no state given for locked sub-channel") // the withdrawer must present every sub-channel state
+		}
+		if g.Version != sub.Version {
 			return nil, fmt.Errorf("sub-channel version %d != registered %d", g.Version, sub.Version)
 		}
 		so, err := l.outcome(sub, given)
@@ -370,12 +376,8 @@ func (p *ledgerParty) Subscribe(_ context.Context, id channel.ID) (channel.Adjud
 	l := p.l
 	s := &lsub{ev: make(chan channel.AdjudicatorEvent, 1), closed: make(chan struct{}), isOpen: true}
 	l.subs[id] = append(l.subs[id], s)
-	if c, ok := l.chans[id]; ok && c.reg != nil {
-		if c.concluded {
-			s.ev <- channel.NewConcludedEvent(id, &channel.ElapsedTimeout{}, c.reg.Version)
-		} else if c.regSigs != nil {
-			s.ev <- channel.NewRegisteredEvent(id, &vtimeout{c.timeout}, c.reg.Version, c.reg, c.regSigs)
-		}
+	if e, ok := l.latest[id]; ok { // a new subscriber learns the newest event of the channel (parent or sub-channel)
+		s.ev <- e
 	}
 	return s, nil
 }
